@@ -438,13 +438,24 @@ static void run_C13(const Args &a, long cs) {
 	}
 	bool must_reject = false; std::vector<std::string> applied;
 	int ncorr = cs % 7 == 0 ? 0 : (r.coin(0.25) ? 2 : 1);
+	if (cs % 25 == 24) { // template of a fit that once never returned: three dimensions, ~100 coefficients, seven data points (some with zero weight), monotonic along a cubic
+		// dimension whose penalty vanishes (penalty order above the order): singular normal equations. Values are randomised around the template.
+		ncorr = 0; p.nd = 3; ord = {3, 1, 1}; por = {(uint32_t)(4 + r.below(2)), 1, (uint32_t)(2 + r.below(2))}; lam = {1.0, r.coin(0.5) ? 1.0 : 0.3, r.coin(0.7) ? 1e-10 : 0.0};
+		kn = {{-3, -2, -1, 0, 1, 2, 3, 4, 5, 6, 7, 8}, {-1, 0, 1, 2}, {-1, 0, 1, 2, 3, 4, 5, 6}}; if (r.coin(0.5)) for (auto &kv : kn) for (size_t i = 1; i < kv.size(); i++) kv[i] += 0.3 * (r.U() - 0.5);
+		co = {{}, {}, {}}; unsigned rg[3] = {3, 4, 2}; for (int d = 0; d < 3; d++) for (unsigned i = 0; i < rg[d]; i++) co[d].push_back(kn[d][ord[d]] + (kn[d][kn[d].size() - ord[d] - 1] - kn[d][ord[d]]) * r.U() * (d == 0 ? 0.5 : 1.0) - (d == 0 ? 2.5 : 0.7));
+		ranges = {3, 4, 2}; idx.clear(); w.clear(); p.y.clear(); size_t npts = 5 + r.below(5);
+		for (size_t i = 0; i < npts; i++) { idx.push_back({(unsigned)r.below(3), (unsigned)r.below(4), (unsigned)r.below(2)}); w.push_back(r.coin(0.2) ? 0.0 : (r.coin(0.5) ? 2.5 : 1.0)); p.y.push_back((r.U() - 0.5) * 4); }
+		monodim = 0; p.ord = ord; p.por = por; p.kn = kn; p.co = co; p.lam = lam; p.n = {8, 2, 6}; p.ntot = 96; p.kind = "ill-posed-template";
+		applied.push_back("ill-posed:template(3-d,few-points,monotonic-cubic,vanishing-penalty)");
+	}
 	for (int q = 0; q < ncorr; q++) {
 		int d = (int)r.below(p.nd);
 		switch (r.below(26)) {
 		case 24: case 25: { // valid but ill-posed: a handful of data points, a monotonic dimension and a vanishing penalty (penalty order above the order) or zero smoothing there:
 			// the normal equations are singular. Fitting must still complete or throw - the watchdog of the driver reports a fit that does neither.
 			monodim = (uint32_t)r.below(p.nd); size_t keep = 3 + r.below(6); while (idx.size() > keep) { size_t k2 = r.below(idx.size()); idx.erase(idx.begin() + k2); if (k2 < w.size()) w.erase(w.begin() + k2); if (k2 < p.y.size()) p.y.erase(p.y.begin() + k2); }
-			if (por.size() == (size_t)p.nd && monodim < por.size() && monodim < ord.size()) por[monodim] = ord[monodim] + 1 + (uint32_t)r.below(3); if (lam.size() == (size_t)p.nd && r.coin(0.5)) lam[(size_t)r.below(p.nd)] = r.coin(0.5) ? 0.0 : 1e-10;
+			if (por.size() == (size_t)p.nd && monodim < por.size() && monodim < ord.size()) por[monodim] = ord[monodim] + 1 + (uint32_t)r.below(3);
+			for (int e = 0; e < p.nd; e++) if (r.coin(0.6)) { if (por.size() == (size_t)p.nd && e < (int)ord.size() && r.coin(0.5)) por[e] = ord[e] + 1 + (uint32_t)r.below(3); else if (lam.size() == (size_t)p.nd) lam[e] = r.coin(0.5) ? 0.0 : 1e-10; } // penalties vanish in most dimensions
 			if (r.coin(0.3)) for (auto &ww : w) if (r.coin(0.3)) ww = 0; // some zero weights as well
 			applied.push_back("ill-posed:few-points+monotonic+vanishing-penalty"); break; }
 		case 22: if (d < (int)kn.size() && kn[d].size() >= 4) { // a NaN (or infinity) hides an out-of-order knot from a comparison-based test for sortedness
